@@ -4,6 +4,8 @@ G2 == {1, 2}
 G3 == {1, 2, 3}
 Fail12 == <<1, 2>>      \* the writer of goroutine 1's second render fails midway
 Fail11 == <<1, 1>>
+NoStall == <<0, 0>>
+Stall11 == <<1, 1>>
 PlainOnly == {"plain"}
 AllDests == {"plain", "bufioBig", "bufioSmall", "buffer"}
 BufioDests == {"plain", "bufioBig"}
